@@ -26,7 +26,7 @@ const S1_STUB: &[&str] = &[
     "SystemTime/Instant/sleep (virtual clock)",
     "the model under check (generated transition graphs)",
 ];
-const S1_BOUNDS: &str = "<= 60 states (65536 for counter-tail timeout models), out-degree <= 5, <= 3 initial states, <= 5 properties, 1-4 worker threads, block size in {1,2,3,5,8,64,1500}";
+const S1_BOUNDS: &str = "<= 60 states (65536 for counter-tail timeout models; wide fans of 2201-16601 states in one C01/C13 run in 2000), out-degree <= 5 (wide fans: up to 8300), <= 3 initial states, <= 5 properties (62-79 in one C02/C03/C11/C12 model in 40), 1-4 worker threads (C05: up to 6), block size in {1,2,3,5,8,64,1500}; a quarter of the C02/C03/C05/C12 runs wait through join_and_report / report";
 
 const S2_REAL: &[&str] = &[
     "stateright ActorModel::init_states/actions/next_state/process_commands",
@@ -37,7 +37,7 @@ const S2_STUB: &[&str] = &[
     "the actors (table-driven script actors generated from the run seed)",
     "the choice of which enabled action happens next (seeded, fault-biased walker) - no threads or clocks are involved in the actor model",
 ];
-const S2_BOUNDS: &str = "1-4 actors, <= 4 local states, <= 4 message tags, <= 3 timers, <= 3 random values, walks <= 80 steps, crash budget 0-2, history capped at 24 events";
+const S2_BOUNDS: &str = "1-4 actors, <= 4 local states, <= 4 message tags, <= 3 timers, <= 3 random values, handler outputs <= 3 commands (one in 60: 21-48), initial networks <= 10 envelopes (C07, one in 25: 22-45), walks <= 80 steps, crash budget 0-2 (C06/C09, one in 12: unlimited), history capped at 24 events";
 
 const S4_REAL: &[&str] = &[
     "semantics::LinearizabilityTester and SequentialConsistencyTester (on_invoke/on_return/is_consistent/serialized_history, Clone)",
@@ -66,7 +66,7 @@ pub const PROPS: &[PropInfo] = &[
     PropInfo { id: "C05", subsystem: "s1", runs: (40000, 2000000), rule: "as C01 with 2-4 workers, block sizes 1-8, all scheduling policies, panics in model code, timeouts; plus the job-market facade workload", oracle: "no deadlock, termination within the step budget, same evaluated set and verdicts as the single-threaded run, no state evaluated twice or lost, a worker panic surfaces from join", real: S1_REAL, stub: S1_STUB, bounds: S1_BOUNDS },
     PropInfo { id: "C11", subsystem: "s1", runs: (100000, 4000000), rule: "as C01 with eventually-properties on forests and general graphs", oracle: "reported => a maximal never-satisfying in-boundary path exists (reference graph search); on forests with completed exhaustive runs also <=", real: S1_REAL, stub: S1_STUB, bounds: S1_BOUNDS },
     PropInfo { id: "C12", subsystem: "s1", runs: (10000, 500000), rule: "as C01 over the cross product of finish condition x targets x depth x timeout x threads x strategy, with virtual-clock timeouts, wall-clock jumps and counter-tail models", oracle: "HasDiscoveries::matches == reference predicate; early stop justified; target and depth honoured; after timeout expiry (faults stopped) join returns within a bounded number of fair steps; unexpired timeout changes nothing and nobody blocks on a lock whose owner sleeps; seed replays first trace", real: S1_REAL, stub: S1_STUB, bounds: S1_BOUNDS },
-    PropInfo { id: "C19", subsystem: "s1x", runs: (40000, 2000000), rule: "one case = a generated graph model checked by the real on-demand checker (1-3 workers, block sizes 1-1500) behind the Explorer's request handlers (called directly, without the HTTP server), with a seeded script of 1-10 requests (states for valid / mutated / unparsable fingerprint paths, status, check_fingerprint for pending and bogus states) issued by a simulated browser thread between quiescent points while 0-2 other browser threads poll status, then run-to-completion; plus Path API calls on a reference walk; distinct = distinct hash of scheduling decisions and hook events; non-trivial = at least one state evaluated or >= 30 steps", oracle: "states lists exactly the model's actions at the final state in order with successor state and fingerprint (ignored actions without); 404 <=> the sequence denotes no execution; status counts lie between the checker's counts before and after, every property path decodes to a genuine witness; a requested pending state is evaluated and its successors become generated; after run-to-completion is_done and evaluated set / verdicts equal the reference; from_actions / encode / into_* / from_fingerprints / final_state agree with the reference walk and reject non-executions", real: S1_REAL, stub: &["OS thread scheduling, clocks", "tiny_http server and the routing match (the handlers behind the routes are called directly)", "ui/app.js (never executed)", "the model under check (generated graphs)"], bounds: "<= 30 states, 1-3 workers, <= 10 requests, <= 2 polling browser threads" },
+    PropInfo { id: "C19", subsystem: "s1x", runs: (40000, 2000000), rule: "one case = a generated graph model checked by the real on-demand checker (1-3 workers, block sizes 1-1500) behind the Explorer's request handlers (called directly, without the HTTP server), with a seeded script of 1-10 requests (states for valid / mutated / unparsable fingerprint paths, status, check_fingerprint for pending and bogus states) issued by a simulated browser thread between quiescent points while 0-2 other browser threads poll status, then run-to-completion; plus Path API calls on a reference walk; distinct = distinct hash of scheduling decisions and hook events; non-trivial = at least one state evaluated or >= 30 steps", oracle: "states lists exactly the model's actions at the final state in order with successor state and fingerprint (ignored actions without); 404 <=> the sequence denotes no execution; status counts lie between the checker's counts before and after, every property path decodes to a genuine witness; a requested pending state is evaluated and its successors become generated; after run-to-completion is_done and evaluated set / verdicts equal the reference; from_actions / encode / into_* / from_fingerprints / final_state agree with the reference walk and reject non-executions", real: S1_REAL, stub: &["OS thread scheduling, clocks", "tiny_http server and the routing match (the handlers behind the routes are called directly; one run in 500 instead starts the real server on a loopback port and speaks HTTP to it, outside the simulation - counters http_*)", "ui/app.js (never executed)", "the model under check (generated graphs)"], bounds: "<= 30 states, 1-3 workers, <= 10 requests, <= 2 polling browser threads; HTTP smoke runs: the same models, 7 routing requests, the states endpoint along the reference walk and three mutations of it, run-to-completion, status" },
     PropInfo { id: "C13", subsystem: "s1", runs: (150000, 6000000), rule: "single-worker BFS on generated graphs with every block size", oracle: "visit depths non-decreasing and equal to the reference shortest distance; witness length == shortest distance to a witnessing state", real: S1_REAL, stub: S1_STUB, bounds: S1_BOUNDS },
 ];
 
